@@ -46,6 +46,19 @@
 //	agstop   Agent.Stop; bounded wait                                              obs  hc=<gone|parked|spinning> usage=<gone|idle|pending|sent>
 //	(after agstop the three environment ops answer  loc=<gone|…>)
 //
+// router cases (header kind=router): the application wired as cmd/refinery/main.go wires it (facebookgo inject graph:
+// real app.App with its two route.Router on 127.0.0.1, real InMemCollector, two real DirectTransmission, LocalPubSub,
+// SamplerFactory, health.Health …; upstream = the in-process fake Honeycomb), started with startstop.Start and stopped
+// with startstop.Stop over g.Objects().
+//
+//	rtev <sid>       a complete POST /1/batch/d0 with one non-trace event (goes straight to the upstream
+//	                 transmission, where it stays pending: MaxBatchSize 500, BatchTimeout 1 h)   obs  ok st=<status> pend=<n>
+//	inflight <sid>   a second client starts such an upload (Expect: 100-continue: the handler is running) and
+//	                 stops half way through the body                                              obs  ok
+//	stopall          startstop.Stop in its own goroutine; 50 ms later the uploads in flight are completed one after the
+//	                 other and their answers read; bounded wait (20 s) for Stop
+//	                 obs  err=<nil|deadline|…> coll=<0|1> up=<0|1> peer=<0|1> st=<status,…> u=<batch the fake Honeycomb got>
+//
 // retry cases (header kind=retry mb=<MaxBatchSize> r=<Retry-After s, 1..59> code=<429|503> lim=<one 0|1 per
 // destination: rate limited> nd=<n>): a real DirectTransmission (fake clock, BatchTimeout 1000 h so that only the
 // batch size and Stop dispatch) in front of a scripted upstream: a limited destination refuses from the first
@@ -62,9 +75,11 @@
 package main
 
 import (
+	"bufio"
 	"context"
 	"fmt"
 	"io"
+	"net"
 	"net/http"
 	"net/http/httptest"
 	"runtime"
@@ -74,6 +89,8 @@ import (
 	"sync"
 	"time"
 
+	"github.com/facebookgo/inject"
+	"github.com/facebookgo/startstop"
 	"github.com/jonboulle/clockwork"
 	"github.com/open-telemetry/opamp-go/client"
 	types2 "github.com/open-telemetry/opamp-go/client/types"
@@ -82,8 +99,10 @@ import (
 	"go.opentelemetry.io/otel/trace/noop"
 
 	"github.com/honeycombio/refinery/agent"
+	"github.com/honeycombio/refinery/app"
 	"github.com/honeycombio/refinery/collect"
 	"github.com/honeycombio/refinery/config"
+	"github.com/honeycombio/refinery/internal/health"
 	"github.com/honeycombio/refinery/internal/peer"
 	kit "github.com/honeycombio/refinery/internal/verifkit"
 	"github.com/honeycombio/refinery/logger"
@@ -247,8 +266,19 @@ func decodeIDs(b []byte) ([]int64, error) {
 					return nil, err
 				}
 				if string(dk) == "id" {
-					if id, b, err = msgp.ReadInt64Bytes(b); err != nil {
+					var v any
+					if v, b, err = msgp.ReadIntfBytes(b); err != nil {
 						return nil, err
+					}
+					switch x := v.(type) {
+					case int64:
+						id = x
+					case uint64:
+						id = int64(x)
+					case float64:
+						id = int64(x)
+					case int:
+						id = int64(x)
 					}
 				} else if b, err = msgp.Skip(b); err != nil {
 					return nil, err
@@ -590,7 +620,21 @@ func (c *comp) newRetryHistory(r *kit.Rng) {
 func (c *comp) Gen(r *kit.Rng, maxLen int, tier string) kit.Case {
 	if c.hist == nil || c.next > len(c.hist) {
 		c.kind = ""
-		if x := r.Intn(100); x < 20 {
+		if x := r.Intn(100); x < 10 {
+			// router history: complete uploads and uploads left in flight; stopall at every prefix
+			c.agent = false
+			c.hdr = "kind=router"
+			var ops []string
+			m := 1 + r.Intn(4)
+			for i := 1; i <= m; i++ {
+				if r.Chance(50) {
+					ops = append(ops, fmt.Sprintf("rtev %d", i))
+				} else {
+					ops = append(ops, fmt.Sprintf("inflight %d", i))
+				}
+			}
+			c.hist, c.next, c.seed, c.kind = ops, 1, r.Next(), "router"
+		} else if x < 28 {
 			c.agent = false
 			c.newRetryHistory(r)
 		} else if x < 60 {
@@ -604,6 +648,9 @@ func (c *comp) Gen(r *kit.Rng, maxLen int, tier string) kit.Case {
 	c.next++
 	tr := kit.NewRng(c.seed + uint64(k)*0x9e37)
 	ops := append([]string{}, c.hist[:k]...)
+	if c.kind == "router" {
+		return kit.Case{Header: c.hdr, Ops: append(ops, "stopall")}
+	}
 	if c.kind == "retry" {
 		ops = append(ops, "rstop")
 		if tr.Chance(25) {
@@ -688,6 +735,9 @@ func (c *comp) NewCase(h []string) kit.Runner {
 	}
 	if kit.KV(h, "kind") == "retry" {
 		return newRetryRunner(h)
+	}
+	if kit.KV(h, "kind") == "router" {
+		return newRouterRunner()
 	}
 	atoi := func(k string, d int64) int64 {
 		v, err := strconv.ParseInt(kit.KV(h, k), 10, 64)
@@ -1288,6 +1338,247 @@ func (r *runner) stopAux() {
 	r.sf.Stop()
 	r.ps.Stop()
 	r.ptx.Stop()
+}
+
+// ---------------------------------------------------------------------------- router histories
+
+const legacyKey = "c9945edf5d245834089a1bd6cc9ad01e"
+
+type inflightReq struct {
+	conn net.Conn
+	br   *bufio.Reader
+	rest string
+}
+
+type routerRunner struct {
+	up      *upstream
+	srv     *httptest.Server
+	g       inject.Graph
+	coll    *collect.InMemCollector
+	upTx    *transmit.DirectTransmission
+	peerTx  *transmit.DirectTransmission
+	addr    string
+	okCount int
+	infl    []*inflightReq
+	stopped bool
+	started bool
+}
+
+func freePort() int {
+	l, err := net.Listen("tcp", "127.0.0.1:0")
+	if err != nil {
+		panic(err)
+	}
+	defer l.Close()
+	return l.Addr().(*net.TCPAddr).Port
+}
+
+func newRouterRunner() *routerRunner {
+	r := &routerRunner{up: &upstream{}}
+	r.srv = httptest.NewServer(r.up)
+	for attempt := 0; attempt < 3 && !r.started; attempt++ {
+		r.start()
+	}
+	if !r.started {
+		panic("router did not start listening")
+	}
+	return r
+}
+
+// start wires and starts the application as cmd/refinery/main.go does.
+func (r *routerRunner) start() {
+	port, peerPort := freePort(), freePort()
+	cfg := &config.MockConfig{
+		GetTracesConfigVal: config.TracesConfig{
+			SendTicker:   config.Duration(100 * time.Millisecond),
+			SendDelay:    config.Duration(200 * time.Millisecond),
+			TraceTimeout: config.Duration(time.Second),
+			MaxBatchSize: 500,
+		},
+		GetSamplerTypeVal:    &config.DeterministicSamplerConfig{SampleRate: 1},
+		PeerManagementType:   "file",
+		GetListenAddrVal:     fmt.Sprintf("127.0.0.1:%d", port),
+		GetPeerListenAddrVal: fmt.Sprintf("127.0.0.1:%d", peerPort),
+		GetHoneycombAPIVal:   r.srv.URL,
+		GetCollectionConfigVal: config.CollectionConfig{
+			WorkerCount:        2,
+			HealthCheckTimeout: config.Duration(3 * time.Second),
+			IncomingQueueSize:  256,
+			PeerQueueSize:      256,
+		},
+		TraceIdFieldNames:  []string{"trace.trace_id"},
+		ParentIdFieldNames: []string{"trace.parent_id"},
+		SampleCache:        config.SampleCacheConfig{KeptSize: 100, DroppedSize: 1000, SizeCheckInterval: config.Duration(time.Hour)},
+	}
+	met := &metrics.MockMetrics{}
+	met.Start()
+	r.upTx = transmit.NewDirectTransmission(types.TransmitTypeUpstream, &http.Transport{}, 500, time.Hour, 5*time.Second, false, nil)
+	r.peerTx = transmit.NewDirectTransmission(types.TransmitTypePeer, &http.Transport{}, 500, time.Hour, 5*time.Second, false, nil)
+	r.coll = &collect.InMemCollector{}
+	a := &app.App{Version: "verif"}
+	r.g = inject.Graph{}
+	err := r.g.Provide(
+		&inject.Object{Value: cfg},
+		&inject.Object{Value: peer.NewMockPeers([]string{"api1"}, "api1")},
+		&inject.Object{Value: &logger.NullLogger{}},
+		&inject.Object{Value: &http.Transport{}, Name: "upstreamTransport"},
+		&inject.Object{Value: r.upTx, Name: "upstreamTransmission"},
+		&inject.Object{Value: r.peerTx, Name: "peerTransmission"},
+		&inject.Object{Value: &sharder.SingleServerSharder{}},
+		&inject.Object{Value: noop.NewTracerProvider().Tracer("verif"), Name: "tracer"},
+		&inject.Object{Value: r.coll},
+		&inject.Object{Value: &pubsub.LocalPubSub{}},
+		&inject.Object{Value: met, Name: "metrics"},
+		&inject.Object{Value: "verif", Name: "version"},
+		&inject.Object{Value: &sample.SamplerFactory{}},
+		&inject.Object{Value: &health.Health{}},
+		&inject.Object{Value: clockwork.NewFakeClock()},
+		&inject.Object{Value: &collect.MockStressReliever{}, Name: "stressRelief"},
+		&inject.Object{Value: a},
+	)
+	if err != nil {
+		panic(err)
+	}
+	if err := r.g.Populate(); err != nil {
+		panic(err)
+	}
+	if err := startstop.Start(r.g.Objects(), nil); err != nil {
+		panic(err)
+	}
+	r.addr = cfg.GetListenAddrVal
+	deadline := time.Now().Add(2 * time.Second)
+	for time.Now().Before(deadline) {
+		// the listener answers /alive: it is this router, not somebody else's port
+		resp, err := (&http.Client{Timeout: 500 * time.Millisecond, Transport: &http.Transport{DisableKeepAlives: true}}).Get("http://" + r.addr + "/version")
+		if err == nil {
+			resp.Body.Close()
+			if resp.StatusCode == 200 {
+				r.started = true
+				return
+			}
+		}
+		time.Sleep(2 * time.Millisecond)
+	}
+	startstop.Stop(r.g.Objects(), nil)
+}
+
+func (r *routerRunner) body(sid int) string {
+	return fmt.Sprintf(`[{"data":{"id":%d,"foo":"bar"}}]`, sid)
+}
+
+func (r *routerRunner) Do(op []string) (string, bool) {
+	switch op[0] {
+	case "rtev":
+		if r.stopped {
+			return "refused", true
+		}
+		sid, _ := strconv.Atoi(op[1])
+		req, _ := http.NewRequest("POST", "http://"+r.addr+"/1/batch/d0", strings.NewReader(r.body(sid)))
+		req.Header.Set("X-Honeycomb-Team", legacyKey)
+		req.Header.Set("Content-Type", "application/json")
+		req.Close = true
+		resp, err := (&http.Client{Timeout: 5 * time.Second, Transport: &http.Transport{DisableKeepAlives: true}}).Do(req)
+		if err != nil {
+			return "err", true
+		}
+		io.Copy(io.Discard, resp.Body)
+		resp.Body.Close()
+		if resp.StatusCode == 200 {
+			r.okCount++
+		}
+		waitFor("event to reach the upstream transmission", func() bool {
+			return resp.StatusCode != 200 || transmit.VerifShutdownPending(r.upTx) == r.okCount
+		})
+		return fmt.Sprintf("ok st=%d pend=%d", resp.StatusCode, transmit.VerifShutdownPending(r.upTx)), true
+	case "inflight":
+		if r.stopped {
+			return "refused", true
+		}
+		sid, _ := strconv.Atoi(op[1])
+		body := r.body(sid)
+		conn, err := net.Dial("tcp", r.addr)
+		if err != nil {
+			return "err", true
+		}
+		fmt.Fprintf(conn, "POST /1/batch/d0 HTTP/1.1\r\nHost: %s\r\nX-Honeycomb-Team: %s\r\nContent-Type: application/json\r\n"+
+			"Content-Length: %d\r\nExpect: 100-continue\r\nConnection: close\r\n\r\n", r.addr, legacyKey, len(body))
+		br := bufio.NewReader(conn)
+		conn.SetReadDeadline(time.Now().Add(5 * time.Second))
+		line, err := br.ReadString('\n')
+		if err != nil || !strings.Contains(line, "100 Continue") {
+			conn.Close()
+			return "err " + kit.Enc(line), true
+		}
+		br.ReadString('\n')
+		conn.Write([]byte(body[:10]))
+		r.infl = append(r.infl, &inflightReq{conn: conn, br: br, rest: body[10:]})
+		return "ok", true
+	case "stopall":
+		if r.stopped {
+			return "bad-op", true
+		}
+		return r.stopAll(), true
+	}
+	return "bad-op", true
+}
+
+func (r *routerRunner) stopAll() string {
+	r.stopped = true
+	stopped := make(chan error, 1)
+	go func() { stopped <- startstop.Stop(r.g.Objects(), nil) }()
+	var sts []string
+	if len(r.infl) > 0 {
+		time.Sleep(50 * time.Millisecond)
+	}
+	for _, f := range r.infl {
+		f.conn.Write([]byte(f.rest))
+		f.conn.SetReadDeadline(time.Now().Add(5 * time.Second))
+		status, err := f.br.ReadString('\n')
+		st := "none"
+		if err == nil {
+			if p := strings.Fields(status); len(p) >= 2 {
+				st = p[1]
+			}
+		}
+		sts = append(sts, st)
+		f.conn.Close()
+	}
+	r.infl = nil
+	errS := "timeout"
+	select {
+	case err := <-stopped:
+		switch {
+		case err == nil:
+			errS = "nil"
+		case strings.Contains(err.Error(), "deadline exceeded"):
+			errS = "deadline"
+		default:
+			errS = kit.Enc(err.Error())
+		}
+	case <-time.After(20 * time.Second):
+	}
+	coll := 0
+	if collect.VerifShutdownClosed(r.coll, collect.VerifShutdownNumWorkers(r.coll)-1) {
+		coll = 1
+	}
+	return fmt.Sprintf("err=%s coll=%d up=%d peer=%d st=%s u=%s", errS, coll, transmit.VerifShutdownStopped(r.upTx),
+		transmit.VerifShutdownStopped(r.peerTx), list(sts), r.up.take())
+}
+
+// Close stops whatever an aborted stop sequence has left running.
+func (r *routerRunner) Close() {
+	defer func() { recover() }()
+	for _, f := range r.infl {
+		f.conn.Close()
+	}
+	if !r.stopped {
+		startstop.Stop(r.g.Objects(), nil)
+	} else {
+		if !collect.VerifShutdownClosed(r.coll, collect.VerifShutdownNumWorkers(r.coll)-1) {
+			startstop.Stop(r.g.Objects(), nil)
+		}
+	}
+	r.srv.Close()
 }
 
 // ---------------------------------------------------------------------------- Retry-After histories
